@@ -1,7 +1,200 @@
-//! C06 — stub (monitor not built yet)
-use crate::run::{Ctx, Report, Stats};
-pub fn run(_ctx: &Ctx) -> Report {
-    let mut r = Report::new(Stats::default(), "not built");
-    r.inconclusive.push("monitor-not-built".into());
-    r
+//! C06 — all views of a sparse matrix agree; compressed-column form stays well-formed.
+use crate::model::DM;
+use crate::mon::common::*;
+use crate::rat::Rat;
+use crate::rng::{permutations, Rng};
+use crate::run::{catch, par_run, Ctx, Outcome, Report, Stats};
+use ohsl::Sparse;
+use std::collections::{BTreeMap, BTreeSet};
+
+const TAG: u64 = 0xC06;
+
+#[derive(Clone, Debug, PartialEq)]
+pub struct SM { pub rows: usize, pub cols: usize, pub e: BTreeMap<(usize, usize), Rat> }
+
+impl SM {
+    pub fn triplets(&self) -> Vec<(usize, usize, Rat)> { self.e.iter().map(|(&(r, c), &v)| (r, c, v)).collect() }
+    pub fn dense(&self) -> DM<Rat> { DM::from_fn(self.rows, self.cols, |i, j| *self.e.get(&(i, j)).unwrap_or(&Rat::ZERO)) }
+    pub fn transpose(&self) -> SM { SM { rows: self.cols, cols: self.rows, e: self.e.iter().map(|(&(r, c), &v)| ((c, r), v)).collect() } }
+    /// raw CSC arrays; rows within each column in scrambled order when `scramble`
+    pub fn csc(&self, rng: &mut Rng, scramble: bool) -> (Vec<Rat>, Vec<usize>, Vec<usize>) {
+        let mut val = vec![]; let mut ri = vec![]; let mut cs = vec![0usize];
+        for c in 0..self.cols {
+            let mut col: Vec<(usize, Rat)> = self.e.iter().filter(|(&(_, cc), _)| cc == c).map(|(&(r, _), &v)| (r, v)).collect();
+            if scramble { rng.shuffle(&mut col); }
+            for (r, v) in col { ri.push(r); val.push(v); }
+            cs.push(val.len());
+        }
+        (val, ri, cs)
+    }
+}
+
+pub fn gen_sm(rng: &mut Rng, rows: usize, cols: usize, density: f64, allow_zero_values: bool) -> SM {
+    let mut e = BTreeMap::new();
+    for r in 0..rows { for c in 0..cols { if rng.chance(density) {
+        let v = if allow_zero_values && rng.chance(0.05) { Rat::ZERO } else if rng.chance(0.2) { Rat::new(rng.nzint(9) as i128, rng.int(1, 4) as i128) } else { Rat::int(rng.nzint(9)) };
+        e.insert((r, c), v);
+    } } }
+    SM { rows, cols, e }
+}
+
+/// structural well-formedness of the public CSC fields
+pub fn wellformed<T>(s: &Sparse<T>) -> Result<(), String> {
+    if s.col_start.len() != s.cols + 1 { return Err(format!("col_start.len()={} != cols+1={}", s.col_start.len(), s.cols + 1)); }
+    if s.col_start[0] != 0 { return Err(format!("col_start[0]={}", s.col_start[0])); }
+    for k in 0..s.cols { if s.col_start[k] > s.col_start[k + 1] { return Err(format!("col_start decreases at {}: {:?}", k, s.col_start)); } }
+    let last = s.col_start[s.cols];
+    if last != s.nonzero || s.val.len() != s.nonzero || s.row_index.len() != s.nonzero { return Err(format!("entry count mismatch: col_start.last={} nonzero={} val.len={} row_index.len={}", last, s.nonzero, s.val.len(), s.row_index.len())); }
+    if let Some(r) = s.row_index.iter().find(|&&r| r >= s.rows) { return Err(format!("row index {} out of range (rows={})", r, s.rows)); }
+    let mut seen = BTreeSet::new();
+    for c in 0..s.cols { for k in s.col_start[c]..s.col_start[c + 1] { if !seen.insert((s.row_index[k], c)) { return Err(format!("duplicate entry ({},{})", s.row_index[k], c)); } } }
+    Ok(())
+}
+
+/// all views of `s` must describe the model `m`
+pub fn check_views(st: &mut Stats, s: &Sparse<Rat>, m: &SM, step: &str, hist: &dyn Fn() -> String) -> bool {
+    st.eval();
+    if s.rows != m.rows || s.cols != m.cols { st.violation("C06:shape", format!("after {}: shape {}x{} expected {}x{}; {}", step, s.rows, s.cols, m.rows, m.cols, hist())); return false; }
+    match catch(|| wellformed(s)) {
+        Outcome::Ok(Ok(())) => {}
+        Outcome::Ok(Err(e)) => { st.violation("C06:csc-malformed", format!("after {}: {}; fields nonzero={} val={:?} row_index={:?} col_start={:?}; {}", step, e, s.nonzero, s.val, s.row_index, s.col_start, hist())); return false; }
+        o => { st.violation("C06:csc-malformed", format!("after {}: inspecting fields {}; {}", step, o.describe(), hist())); return false; }
+    }
+    let mut ok = true;
+    // get for every (r,c)
+    for r in 0..m.rows { for c in 0..m.cols {
+        let want = m.e.get(&(r, c)).copied();
+        match catch(|| s.get(r, c)) { Outcome::Ok(g) => if g != want { st.violation("C06:get:wrong-value", format!("after {}: get({},{}) = {:?} expected {:?}; {}", step, r, c, g, want, hist())); ok = false; }, o => { st.violation("C06:get:panic", format!("after {}: get({},{}) {}; {}", step, r, c, o.describe(), hist())); ok = false; } }
+        if !ok { return false; }
+    } }
+    // triplets as a set (and duplicate-free as a list)
+    match catch(|| s.to_triplets()) {
+        Outcome::Ok(t) => { let set: BTreeMap<(usize, usize), Rat> = t.iter().map(|&(r, c, v)| ((r, c), v)).collect(); if set != m.e || t.len() != m.e.len() { st.violation("C06:to_triplets:wrong", format!("after {}: to_triplets = {:?} expected {:?}; {}", step, t, m.triplets(), hist())); ok = false; } }
+        o => { st.violation("C06:to_triplets:panic", format!("after {}: {}; {}", step, o.describe(), hist())); ok = false; }
+    }
+    match catch(|| s.to_dense()) {
+        Outcome::Ok(d) => if !m.dense().eq_ohsl(&d) { st.violation("C06:to_dense:wrong", format!("after {}: to_dense differs; {}", step, hist())); ok = false; },
+        o => { st.violation("C06:to_dense:panic", format!("after {}: {}; {}", step, o.describe(), hist())); ok = false; }
+    }
+    match catch(|| s.col_index()) {
+        Outcome::Ok(ci) => {
+            let mut good = ci.size() == m.e.len();
+            if good { for c in 0..s.cols { for k in s.col_start[c]..s.col_start[c + 1] { if ci[k] != c { good = false; } } } }
+            if !good { st.violation("C06:col_index:wrong", format!("after {}: col_index = {:?} col_start = {:?}; {}", step, ci.vec, s.col_start, hist())); ok = false; }
+        }
+        o => { st.violation("C06:col_index:panic", format!("after {}: {}; {}", step, o.describe(), hist())); ok = false; }
+    }
+    ok
+}
+
+fn history(st: &mut Stats, rng: &mut Rng, rows: usize, cols: usize) {
+    st.next_case();
+    let dens = *rng.pick(&[0.0, 0.1, 0.3, 0.6, 1.0]);
+    let mut m = gen_sm(rng, rows, cols, dens, true);
+    // sometimes force empty first/last column
+    if cols > 1 && rng.chance(0.3) { let c0 = if rng.bool() { 0 } else { cols - 1 }; m.e.retain(|&(_, c), _| c != c0); }
+    let mut log: Vec<String> = vec![];
+    let via_vecs = rng.chance(0.35);
+    let built = if via_vecs {
+        let scr = rng.bool(); let (val, ri, cs) = m.csc(rng, scr);
+        log.push(format!("from_vecs({}x{}, val={:?}, row_index={:?}, col_start={:?})", rows, cols, val, ri, cs));
+        catch(|| Sparse::<Rat>::from_vecs(rows, cols, val, ri, cs))
+    } else {
+        let mut t = m.triplets();
+        rng.shuffle(&mut t);
+        log.push(format!("from_triplets({}x{}, {:?})", rows, cols, t));
+        catch(|| Sparse::<Rat>::from_triplets(rows, cols, &mut t))
+    };
+    let mut s = match built { Outcome::Ok(s) => s, o => { st.violation("C06:construct:panic", format!("{} ; {:?}", o.describe(), log)); return; } };
+    if !check_views(st, &s, &m, "construction", &|| format!("{:?}", log)) { return; }
+    let steps = rng.usize(0, 25);
+    let mut h = hash_str("hist") ^ (rows * 16 + cols) as u64;
+    for _ in 0..steps {
+        let op = rng.below(10);
+        h = hmix(h, op);
+        let name: String;
+        match op {
+            0..=3 if m.rows > 0 && m.cols > 0 => { // insert: new or overwrite
+                let (r, c) = if !m.e.is_empty() && rng.chance(0.4) { let k = rng.below(m.e.len() as u64) as usize; *m.e.keys().nth(k).unwrap() } else { (rng.usize(0, m.rows - 1), rng.usize(0, m.cols - 1)) };
+                let v = Rat::int(rng.int(-9, 9));
+                let kind = if m.e.contains_key(&(r, c)) { "overwrite" } else { "new" };
+                m.e.insert((r, c), v);
+                name = format!("insert[{}]({},{},{:?})", kind, r, c, v);
+                if let o @ (Outcome::Panic { .. } | Outcome::Budget) = catch(|| s.insert(r, c, v)) { st.violation("C06:insert:panic", format!("{} {}; {:?}", name, o.describe(), log)); return; }
+                st.count(&format!("steps:insert-{}", kind));
+            }
+            4 | 5 => { let f = Rat::int(*rng.pick(&[-2, -1, 2, 3, 0])); for v in m.e.values_mut() { *v = *v * f; } name = format!("scale({:?})", f);
+                if let o @ (Outcome::Panic { .. } | Outcome::Budget) = catch(|| s.scale(&f)) { st.violation("C06:scale:panic", format!("{} {}; {:?}", name, o.describe(), log)); return; } st.count("steps:scale"); }
+            6 | 7 => { m = m.transpose(); name = "transpose()".to_string();
+                match catch(|| s.transpose()) { Outcome::Ok(t) => s = t, o => { st.violation("C06:transpose:panic", format!("{}; {:?}", o.describe(), log)); return; } } st.count("steps:transpose"); }
+            _ => continue,
+        }
+        log.push(name.clone());
+        if !check_views(st, &s, &m, &name, &|| format!("{:?}", log)) { return; }
+    }
+    st.count("histories");
+    st.set_insert("shapes", format!("{}x{}", rows, cols));
+    if rows * cols > 1 { st.nontrivial(hmix(h, rng.u64())); }
+    if log.len() > 4 { st.sample(|| format!("{:?}", log)); }
+}
+
+/// every permutation of the triplet list gives the same four views (entry sets of size <= 6)
+fn order_independence(st: &mut Stats, rng: &mut Rng) {
+    st.next_case();
+    let (rows, cols) = (rng.usize(1, 4), rng.usize(1, 4));
+    let mut m = gen_sm(rng, rows, cols, 0.5, false);
+    while m.e.len() > 6 { let k = *m.e.keys().next().unwrap(); m.e.remove(&k); }
+    let base = m.triplets();
+    let perms = permutations(base.len());
+    for p in &perms {
+        let mut t: Vec<_> = p.iter().map(|&i| base[i]).collect();
+        let shown = format!("{:?}", t);
+        match catch(|| Sparse::<Rat>::from_triplets(rows, cols, &mut t)) {
+            Outcome::Ok(s) => { if !check_views(st, &s, &m, "from_triplets(permuted)", &|| format!("{}x{} triplets {}", rows, cols, shown)) { return; } }
+            o => { st.violation("C06:construct:panic", format!("{}; triplets {}", o.describe(), shown)); return; }
+        }
+    }
+    st.add("triplet-permutations", perms.len() as u64);
+    st.nontrivial(hmix(hash_str("perm"), rng.u64()));
+}
+
+/// exhaustive patterns for shapes up to 3x3 (2^(r*c) patterns)
+fn exhaustive_patterns(st: &mut Stats, rng: &mut Rng, rows: usize, cols: usize) {
+    let cells = rows * cols;
+    for pat in 0u32..(1 << cells) {
+        st.next_case();
+        let mut e = BTreeMap::new();
+        for k in 0..cells { if pat >> k & 1 == 1 { e.insert((k / cols, k % cols), Rat::int(rng.nzint(9))); } }
+        let m = SM { rows, cols, e };
+        let mut t = m.triplets();
+        rng.shuffle(&mut t);
+        let shown = format!("{:?}", t);
+        match catch(|| Sparse::<Rat>::from_triplets(rows, cols, &mut t)) {
+            Outcome::Ok(s) => {
+                if !check_views(st, &s, &m, "from_triplets", &|| format!("{}x{} {}", rows, cols, shown)) { continue; }
+                if let Outcome::Ok(tr) = catch(|| s.transpose()) { check_views(st, &tr, &m.transpose(), "transpose", &|| format!("{}x{} {}", rows, cols, shown)); } else { st.violation("C06:transpose:panic", shown.clone()); }
+            }
+            o => st.violation("C06:construct:panic", format!("{}; {}", o.describe(), shown)),
+        }
+        st.count("exhaustive-patterns");
+        st.nontrivial(hmix(hash_str("pat"), ((rows * 4 + cols) as u64) << 32 | pat as u64));
+    }
+}
+
+pub fn run(ctx: &Ctx) -> Report {
+    let nshape = 81u64; // (rows, cols) in [0,8]^2
+    let nexh = 9u64;    // shapes 1..3 x 1..3
+    let nperm = ctx.vol(1500, 40_000);
+    let reps = ctx.vol(300, 8000);
+    let stats = par_run(ctx, TAG, nshape + nexh + nperm, |u, rng, st| {
+        if u < nshape { for _ in 0..reps { history(st, rng, (u / 9) as usize, (u % 9) as usize); } }
+        else if u < nshape + nexh { let v = (u - nshape) as usize; exhaustive_patterns(st, rng, v / 3 + 1, v % 3 + 1); }
+        else { for _ in 0..4 { order_independence(st, rng); } }
+    });
+    let mut rep = Report::new(stats,
+        "histories: for every shape (rows,cols) in [0,8]^2 build a random duplicate-free Rat matrix (densities 0..1, forced empty first/last columns, explicit zero values) by from_triplets (shuffled) or from_vecs (rows in sorted or scrambled order), then <=25 steps of insert-new/insert-overwrite/scale/transpose; after every step the public CSC fields are checked for well-formedness and get(r,c) for every (r,c), to_triplets, to_dense, col_index are compared with a BTreeMap model. Exhaustive: all 2^(r*c) patterns for shapes up to 3x3; all k! orders of triplet lists with k<=6. Non-trivial: at least 2 cells; distinct = distinct history hashes");
+    rep.assumptions = vec!["duplicate-free entry sets only (as the property states)".into(), "from_vecs is given valid arrays (it is documented as unchecked)".into()];
+    rep.min_nontrivial = 500;
+    rep.extra.set("exhaustive_parts", crate::json::J::Arr(vec![crate::json::J::s("shapes [0,8]^2 for histories"), crate::json::J::s("all sparsity patterns for shapes 1..3 x 1..3"), crate::json::J::s("all permutations of triplet lists of length <= 6")]));
+    rep
 }
